@@ -49,12 +49,24 @@ Proofs/Calls.vos Proofs/Calls.vok Proofs/Calls.required_vos: Proofs/Calls.v Base
 Proofs/Contexts.vo Proofs/Contexts.glob Proofs/Contexts.v.beautified Proofs/Contexts.required_vo: Proofs/Contexts.v Base/Base.vo Model/Reader.vo Model/Printer.vo Model/Store.vo Model/Eval.vo Model/Init.vo
 Proofs/Contexts.vio: Proofs/Contexts.v Base/Base.vio Model/Reader.vio Model/Printer.vio Model/Store.vio Model/Eval.vio Model/Init.vio
 Proofs/Contexts.vos Proofs/Contexts.vok Proofs/Contexts.required_vos: Proofs/Contexts.v Base/Base.vos Model/Reader.vos Model/Printer.vos Model/Store.vos Model/Eval.vos Model/Init.vos
+Proofs/Backquote.vo Proofs/Backquote.glob Proofs/Backquote.v.beautified Proofs/Backquote.required_vo: Proofs/Backquote.v Base/Base.vo Model/Reader.vo Model/Printer.vo Model/Store.vo Model/Eval.vo Proofs/Lists.vo
+Proofs/Backquote.vio: Proofs/Backquote.v Base/Base.vio Model/Reader.vio Model/Printer.vio Model/Store.vio Model/Eval.vio Proofs/Lists.vio
+Proofs/Backquote.vos Proofs/Backquote.vok Proofs/Backquote.required_vos: Proofs/Backquote.v Base/Base.vos Model/Reader.vos Model/Printer.vos Model/Store.vos Model/Eval.vos Proofs/Lists.vos
+Proofs/Closures.vo Proofs/Closures.glob Proofs/Closures.v.beautified Proofs/Closures.required_vo: Proofs/Closures.v Base/Base.vo Model/Reader.vo Model/Printer.vo Model/Store.vo Model/Eval.vo
+Proofs/Closures.vio: Proofs/Closures.v Base/Base.vio Model/Reader.vio Model/Printer.vio Model/Store.vio Model/Eval.vio
+Proofs/Closures.vos Proofs/Closures.vok Proofs/Closures.required_vos: Proofs/Closures.v Base/Base.vos Model/Reader.vos Model/Printer.vos Model/Store.vos Model/Eval.vos
 Props/C02.vo Props/C02.glob Props/C02.v.beautified Props/C02.required_vo: Props/C02.v Base/Base.vo Model/Reader.vo Model/Printer.vo Model/Store.vo Model/Eval.vo Model/Init.vo Proofs/Calls.vo
 Props/C02.vio: Props/C02.v Base/Base.vio Model/Reader.vio Model/Printer.vio Model/Store.vio Model/Eval.vio Model/Init.vio Proofs/Calls.vio
 Props/C02.vos Props/C02.vok Props/C02.required_vos: Props/C02.v Base/Base.vos Model/Reader.vos Model/Printer.vos Model/Store.vos Model/Eval.vos Model/Init.vos Proofs/Calls.vos
 Props/C03.vo Props/C03.glob Props/C03.v.beautified Props/C03.required_vo: Props/C03.v Base/Base.vo Model/Reader.vo Model/Printer.vo Model/Store.vo Model/Eval.vo Model/Init.vo Proofs/EvalRel.vo
 Props/C03.vio: Props/C03.v Base/Base.vio Model/Reader.vio Model/Printer.vio Model/Store.vio Model/Eval.vio Model/Init.vio Proofs/EvalRel.vio
 Props/C03.vos Props/C03.vok Props/C03.required_vos: Props/C03.v Base/Base.vos Model/Reader.vos Model/Printer.vos Model/Store.vos Model/Eval.vos Model/Init.vos Proofs/EvalRel.vos
+Props/C05.vo Props/C05.glob Props/C05.v.beautified Props/C05.required_vo: Props/C05.v Base/Base.vo Model/Reader.vo Model/Printer.vo Model/Store.vo Model/Eval.vo Model/Init.vo Proofs/Closures.vo Proofs/EvalRel.vo
+Props/C05.vio: Props/C05.v Base/Base.vio Model/Reader.vio Model/Printer.vio Model/Store.vio Model/Eval.vio Model/Init.vio Proofs/Closures.vio Proofs/EvalRel.vio
+Props/C05.vos Props/C05.vok Props/C05.required_vos: Props/C05.v Base/Base.vos Model/Reader.vos Model/Printer.vos Model/Store.vos Model/Eval.vos Model/Init.vos Proofs/Closures.vos Proofs/EvalRel.vos
+Props/C07.vo Props/C07.glob Props/C07.v.beautified Props/C07.required_vo: Props/C07.v Base/Base.vo Model/Reader.vo Model/Printer.vo Model/Store.vo Model/Eval.vo Model/Init.vo Proofs/Lists.vo Proofs/Backquote.vo
+Props/C07.vio: Props/C07.v Base/Base.vio Model/Reader.vio Model/Printer.vio Model/Store.vio Model/Eval.vio Model/Init.vio Proofs/Lists.vio Proofs/Backquote.vio
+Props/C07.vos Props/C07.vok Props/C07.required_vos: Props/C07.v Base/Base.vos Model/Reader.vos Model/Printer.vos Model/Store.vos Model/Eval.vos Model/Init.vos Proofs/Lists.vos Proofs/Backquote.vos
 Props/C08.vo Props/C08.glob Props/C08.v.beautified Props/C08.required_vo: Props/C08.v Base/Base.vo Model/Reader.vo Proofs/ReaderTotal.vo
 Props/C08.vio: Props/C08.v Base/Base.vio Model/Reader.vio Proofs/ReaderTotal.vio
 Props/C08.vos Props/C08.vok Props/C08.required_vos: Props/C08.v Base/Base.vos Model/Reader.vos Proofs/ReaderTotal.vos
